@@ -841,3 +841,6 @@ func (e *Ev) Brief() string {
 	}
 	return fmt.Sprintf("#%d %s %s %s", e.Seq, e.Kind, e.Name, e.Err)
 }
+
+// IsPanic reports whether err came from a recovered engine panic.
+func IsPanic(err error) bool { return errors.Is(err, ErrPanic) }
